@@ -181,7 +181,7 @@ def oracle(case):
         if got != names: return ['element order %r, expected %r' % (got, names)]
         for ep in tab.eam_potentials:
             for b in names:
-                v = ep.electronDensityFunction[b](1.0)
+                v = ep.electronDensityFunction[b](5.0 / (case['nr'] - 1))        # at the second grid row, where expected_density is stated
                 if v != expected_density(case, ep.species, b): fails.append('EAMPotential(%s).electronDensityFunction[%s] is %r, the entry %s->%s declares %r' % (ep.species, b, v, ep.species, b, expected_density(case, ep.species, b)))
         try: slots = read_slots(case, text, names)
         except Exception as e: return fails + ['unreadable output: %s' % e]
